@@ -50,6 +50,8 @@ TOPOLOGIES = [
 ]
 TOPOLOGIES.append(('forest listing world-attached trees BEFORE a free-floating one (q index != qd index for later links)',
                    [dict(parent=-1, joints=H), dict(parent=0, joints=S), dict(parent=-1, joints=F), dict(parent=2, joints=H)], True))
+TOPOLOGIES.append(('two free roots, each with a hinge child (whatever is computed once per link-type GROUP sees both roots)',
+                   [dict(parent=-1, joints=F), dict(parent=0, joints=H), dict(parent=-1, joints=F), dict(parent=2, joints=H)], True))
 TOPOLOGIES.append(('mixed stacks: hinge+slide root, slide+hinge+slide child',
                    [dict(parent=-1, joints=('h', 's')), dict(parent=0, joints=('s', 'h', 's'))], False))
 THOROUGH = [
